@@ -487,6 +487,9 @@ func (fr *frame) builtin(st *state, b *ssa.Builtin, c *ssa.CallCommon, instr ssa
 		return nil
 	case "close":
 		k := "G|chan.closed|Bool"
+		if fr.sweepOn() {
+			fr.oblige(st, "closeclosed", fr.anchorText(pos, "callfull"), pos, not(app("select", fc.hget(st, k), args[0])), "close of closed channel")
+		}
 		fc.hset(st, k, app("store", fc.hget(st, k), args[0], "true"))
 		return nil
 	case "print", "println":
